@@ -16,13 +16,16 @@ import (
 type workerReq struct {
 	Files  map[string]string `json:"files"`
 	Config string            `json:"config"`
+	Op     string            `json:"op,omitempty"`   // "" = taint, "all" = every analysis entry point
+	Only   string            `json:"only,omitempty"` // op all: a single step
 }
 
 type workerResp struct {
-	Pairs   []Pair `json:"pairs"`
-	Escapes []int  `json:"escapes"`
-	Err     string `json:"err"`
-	Panic   string `json:"panic"`
+	Pairs   []Pair       `json:"pairs"`
+	Escapes []int        `json:"escapes"`
+	Err     string       `json:"err"`
+	Panic   string       `json:"panic"`
+	Steps   []StepResult `json:"steps,omitempty"`
 }
 
 // ServeWorker reads requests (one JSON object per line) and answers each with one JSON line. The tool's own output is
@@ -39,6 +42,8 @@ func ServeWorker() {
 			var resp workerResp
 			if e := json.Unmarshal(line, &req); e != nil {
 				resp.Err = "bad request: " + e.Error()
+			} else if req.Op == "all" {
+				resp.Steps = RunAllAnalyses(req.Files, req.Only)
 			} else {
 				l, e := LoadSource(req.Files)
 				if e != nil {
@@ -207,6 +212,52 @@ func (w *Worker) Taint(files map[string]string, configYAML string, budget time.D
 			o.Err = fmt.Errorf("%s", resp.Err)
 		}
 		return o, false, nil
+	case <-time.After(budget):
+		w.Kills++
+		w.stop()
+		return nil, true, nil
+	}
+}
+
+// All runs every analysis entry point in the child. overBudget / ErrWorkerDied as for Taint.
+func (w *Worker) All(files map[string]string, only string, budget time.Duration) (steps []StepResult, overBudget bool, err error) {
+	w.mu.Lock()
+	defer w.mu.Unlock()
+	if w.cmd == nil {
+		if err := w.start(); err != nil {
+			return nil, false, err
+		}
+	}
+	b, _ := json.Marshal(workerReq{Files: files, Op: "all", Only: only})
+	b = append(b, '\n')
+	if _, err := w.in.Write(b); err != nil {
+		w.stop()
+		return nil, false, fmt.Errorf("worker write: %w", err)
+	}
+	type res struct {
+		line []byte
+		err  error
+	}
+	ch := make(chan res, 1)
+	rd := w.out
+	go func() {
+		line, err := rd.ReadBytes('\n')
+		ch <- res{line, err}
+	}()
+	select {
+	case r := <-ch:
+		if r.err != nil {
+			time.Sleep(50 * time.Millisecond)
+			tail := w.stderr.String()
+			w.stop()
+			return nil, false, &ErrWorkerDied{Stderr: tail}
+		}
+		var resp workerResp
+		if e := json.Unmarshal(r.line, &resp); e != nil {
+			w.stop()
+			return nil, false, fmt.Errorf("worker protocol: %w", e)
+		}
+		return resp.Steps, false, nil
 	case <-time.After(budget):
 		w.Kills++
 		w.stop()
